@@ -179,8 +179,11 @@ func c01Digest(c *Ctx) {
 		ok := len(hb) == 1 && len(inits) == 1
 		if ok {
 			// Init's hash argument is the phi of the default and the parsed value
-			harg := inits[0].Common().Args[4]
+			harg := actualOfType(inits[0], "crypto.Hash")
 			okDefault, okParsed := false, false
+			if harg == nil {
+				harg = ssa.NewConst(nil, types.Typ[types.Int]) // nothing of that type passed: neither leaf matches
+			}
 			for _, lf := range phiLeaves(harg, nil, map[*ssa.Phi]bool{}) {
 				if lf.V == hb[0].Value() {
 					okParsed = true
@@ -196,23 +199,20 @@ func c01Digest(c *Ctx) {
 		c.Undecided(c01RuleDigest, "signinit.Init", "-", "function not found")
 	} else {
 		c.Analysed(p.FName(in))
-		var hp *ssa.Parameter
-		for _, pa := range in.Params {
-			if isCryptoHash(pa.Type()) {
-				hp = pa
-			}
-		}
+		// the requested digest: Init's input of type crypto.Hash (a parameter, or a field of a request struct)
+		hp := true
+		isHashIn := func(v ssa.Value) bool { return isCryptoHash(v.Type()) && inputOfType(in, v, "crypto.Hash") }
 		stored, audited := false, false
 		for _, b := range in.Blocks {
 			for _, x := range b.Instrs {
-				if st, ok := x.(*ssa.Store); ok && hp != nil && st.Val == ssa.Value(hp) {
+				if st, ok := x.(*ssa.Store); ok && hp && isHashIn(st.Val) {
 					if tn, f, _ := p.fieldAddr(st.Addr); tn == "signers.SignOpts" && f == "Hash" {
 						stored = true
 					}
 				}
-				if ci, ok := x.(ssa.CallInstruction); ok && p.calleeName(ci.Common()) == "lib/audit.New" && hp != nil {
+				if ci, ok := x.(ssa.CallInstruction); ok && p.calleeName(ci.Common()) == "lib/audit.New" && hp {
 					for _, a := range ci.Common().Args {
-						if a == ssa.Value(hp) {
+						if isHashIn(a) {
 							audited = true
 						}
 					}
